@@ -292,43 +292,89 @@ Section Scheduler.
                       ((maxp <=? total) && forallb (fun p => edist p <=? edist e) picked)) pending.
 
   (* what precedes the scheduling call inside each fetcher operation (nothing stored locally, no
-     farthest-distance limit, no expiry; adverts with at least two new keys: the single-key fast path
-     is C08's subject) *)
+     expiry; adverts with at least two new keys: the single-key fast path is C08's subject).
+     `farthest` is farthest_acceptable_distance: a KBucketDistance compared exactly (no conversion). *)
   Inductive fstep :=
   | FAdd (holder : bytes) (keys : list kt)
   | FPut (key : bytes) (t : N)
   | FEarly (key : bytes) (t : N)
-  | FNext.
+  | FNext
+  | FFull (farthest_in : option bytes).        (* set_farthest_on_full: no scheduling call follows *)
 
-  Definition step_pre (range : option N) (st : fstep) (pending ongoing : list entry) : list entry * list entry :=
+  (* set_farthest_on_full: the bound only ever shrinks; when it does, everything queued or in flight
+     beyond the new bound is dropped *)
+  Definition set_farthest_on_full (farthest : option N) (farthest_in : option bytes)
+             (pending ongoing : list entry) : list entry * list entry * option N :=
+    match farthest_in with
+    | None => (pending, ongoing, farthest)
+    | Some key =>
+        let new_d := dk key in
+        let keep := match farthest with Some old => old <=? new_d | None => false end in
+        if keep then (pending, ongoing, farthest)
+        else (filter (fun e => edist e <=? new_d) pending, filter (fun e => edist e <=? new_d) ongoing, Some new_d)
+    end.
+
+  Definition step_pre (farthest : option N) (range : option N) (st : fstep) (pending ongoing : list entry)
+    : list entry * list entry * option N :=
     match st with
     | FAdd holder keys =>
+        let within := match farthest with
+                      | Some f => filter (fun k => dk (fst k) <=? f) keys       (* distance > farthest: refused *)
+                      | None => keys
+                      end in
         let in_range := match range with
-                        | Some r => filter (fun k => convert_distance_to_u256 (dk (fst k)) <=? r) keys
-                        | None => keys
+                        | Some r => filter (fun k => convert_distance_to_u256 (dk (fst k)) <=? r) within
+                        | None => within
                         end in
         (fold_left (fun acc k => if mem_entry (k, holder) acc then acc else acc ++ [(k, holder)]) in_range pending,
-         ongoing)
+         ongoing, farthest)
     | FPut key t =>
         (filter (fun e => negb (kt_eqb (entry_kt e) (key, t))) pending,
-         filter (fun e => negb (bytes_eqb (entry_key e) key)) ongoing)
+         filter (fun e => negb (bytes_eqb (entry_key e) key)) ongoing, farthest)
     | FEarly key t =>
         (filter (fun e => negb (kt_eqb (entry_kt e) (key, t))) pending,
-         filter (fun e => negb (kt_eqb (entry_kt e) (key, t))) ongoing)
-    | FNext => (pending, ongoing)
+         filter (fun e => negb (kt_eqb (entry_kt e) (key, t))) ongoing, farthest)
+    | FNext => (pending, ongoing, farthest)
+    | FFull farthest_in => set_farthest_on_full farthest farthest_in pending ongoing
     end.
 
   Definition same_entries (a b : list entry) : bool :=
     Nat.eqb (List.length a) (List.length b) && forallb (fun x => mem_entry x b) a && forallb (fun x => mem_entry x a) b.
 
-  (* one recorded step: both maps before, the entries that went in flight (in hand-out order),
-     both maps after *)
+  Definition is_full_step (st : fstep) : bool := match st with FFull _ => true | _ => false end.
+
+  (* one recorded step: both maps and the farthest bound before, the entries that went in flight (in
+     hand-out order), both maps and the bound after *)
   Definition agree_fetch_step (maxp : N) (range : option N) (st : fstep)
-             (pre_p pre_o picked post_p post_o : list entry) : bool :=
-    let '(p1, o1) := step_pre range st pre_p pre_o in
-    sched_ok maxp p1 (map entry_kt o1) picked &&
-    same_entries post_p (filter (fun e => negb (mem_entry e picked)) p1) &&
-    same_entries post_o (o1 ++ picked).
+             (pre_p pre_o : list entry) (pre_far : option N) (picked : list entry)
+             (post_p post_o : list entry) (post_far : option N) : bool :=
+    let '(p1, o1, far1) := step_pre pre_far range st pre_p pre_o in
+    option_eqb N.eqb far1 post_far &&
+    if is_full_step st
+    then match picked with [] => true | _ => false end && same_entries post_p p1 && same_entries post_o o1
+    else sched_ok maxp p1 (map entry_kt o1) picked &&
+         same_entries post_p (filter (fun e => negb (mem_entry e picked)) p1) &&
+         same_entries post_o (o1 ++ picked).
+  (* the fetcher as a deterministic machine over whole histories (the hash-map order of the backlog is
+     whatever order the steps produce; theorems about it hold for every order, see fetch_schedule_closest_first) *)
+  Definition fetch_step_model (maxp : N) (range : option N)
+             (s : list entry * list entry * option N) (st : fstep) : list entry * list entry * option N :=
+    let '(pending, ongoing, farthest) := s in
+    let '(p1, o1, far1) := step_pre farthest range st pending ongoing in
+    if is_full_step st then (p1, o1, far1)
+    else let picked := next_keys_generic maxp p1 (map entry_kt o1) in
+         (filter (fun e => negb (mem_entry e picked)) p1, o1 ++ picked, far1).
+
+  Definition fetch_run (maxp : N) (range : option N) (steps : list fstep) : list entry * list entry * option N :=
+    fold_left (fetch_step_model maxp range) steps ([], [], None).
+
+  (* the minimum of the distances of the farthest keys notified so far *)
+  Definition notify_min (b : option N) (st : fstep) : option N :=
+    match st with
+    | FFull (Some key) => Some (match b with Some o => N.min o (dk key) | None => dk key end)
+    | _ => b
+    end.
+  Definition notified_min (steps : list fstep) : option N := fold_left notify_min steps None.
 End Scheduler.
 
 (* ------------------------------------------------------------------ agreement predicates
@@ -413,13 +459,15 @@ Section Agree.
     let hs := kbucket_key H (from_peer self_peer) in
     map (fun k => (k, N.lxor hs (kbucket_key H (from_record_key k)))) keys.
 
-  Definition fetch_record := (fstep * (list entry * list entry) * list entry * (list entry * list entry))%type.
+  Definition fstate := (list entry * list entry * option N)%type.    (* backlog, in flight, farthest bound *)
+  Definition fetch_record := (fstep * fstate * list entry * fstate)%type.
 
   (* every record key whose distance a recorded step needs *)
   Definition record_keys (r : fetch_record) : list bytes :=
     match r with
-    | (st, (pre_p, _), picked, _) =>
-        match st with FAdd _ ks => map fst ks | _ => [] end ++ map entry_key pre_p ++ map entry_key picked
+    | (st, (pre_p, pre_o, _), picked, _) =>
+        match st with FAdd _ ks => map fst ks | FFull (Some k) => [k] | _ => [] end ++
+        map entry_key pre_p ++ map entry_key pre_o ++ map entry_key picked
     end.
   Definition mem_bytes (k : bytes) (l : list bytes) : bool := existsb (bytes_eqb k) l.
 
@@ -430,7 +478,7 @@ Section Agree.
     forallb (fun r : fetch_record =>
                forallb (fun k => mem_bytes k keys) (record_keys r) &&
                match r with
-               | (st, (pre_p, pre_o), picked, (post_p, post_o)) =>
-                   agree_fetch_step (lookup_dist tbl) maxp range st pre_p pre_o picked post_p post_o
+               | (st, (pre_p, pre_o, pre_far), picked, (post_p, post_o, post_far)) =>
+                   agree_fetch_step (lookup_dist tbl) maxp range st pre_p pre_o pre_far picked post_p post_o post_far
                end) steps.
 End Agree.
